@@ -297,6 +297,42 @@ func c17FilterOnly(r *an.Run) {
 		site := filterSite{g: f, isList: isOwnList, isLo: isBound("Start"), isHi: isBound("End"), result: []ssa.Value{listStore.Val}}
 		var loArg, hiArg ssa.Value
 		var scanIn *ssa.Function // when the helper receives the whole interval: where its bounds are compared
+		// the filter may be a generic "append those that satisfy the predicate" helper:
+		// cg.List = appendIf(nil, cg.List, func(c *ast.Comment) bool { … })
+		if call, ok := listStore.Val.(*ssa.Call); ok {
+			if dstIdx, srcIdx, keepIdx, isFilter := asFilterHelper(an.StaticCallee(call)); isFilter && keepIdx < len(call.Call.Args) {
+				h := an.StaticCallee(call)
+				r.Check(isOwnList(call.Call.Args[srcIdx]), short(f)+"|list-loop", call.Pos(), "the new list is built by a forward loop over the old list of the same comment group (%s: a full forward loop over the list it is handed)", short(h))
+				r.Check(an.IsNilConst(call.Call.Args[dstIdx]), short(f)+"|appends-own-elements", call.Pos(), "only elements of the same list are appended, in their original order (%s appends to the empty list it is handed exactly the elements of the source that the predicate accepts)", short(h))
+				r.Pass(short(f)+"|stores-filtered", listStore.Pos(), "what becomes the new list is that filtered slice")
+				var pred *ssa.Function
+				switch v := call.Call.Args[keepIdx].(type) {
+				case *ssa.MakeClosure:
+					pred, _ = v.Fn.(*ssa.Function)
+				case *ssa.Function:
+					pred = v
+				}
+				r.Rule("R3-containment-test")
+				if r.Check(pred != nil && len(pred.Params) == 1, short(f)+"|containment", call.Pos(), "the predicate handed to %s is a function literal of the clean-up", short(h)) {
+					predicateIsContainment(r, short(f), pred, isBound("Start"), isBound("End"), call.Pos())
+					roots := map[string]bool{}
+					for _, b := range pred.Blocks {
+						for _, in := range b.Instrs {
+							if cmp, ok := in.(*ssa.BinOp); ok {
+								for _, v := range []ssa.Value{cmp.X, cmp.Y} {
+									if p := an.Path(v); strings.HasSuffix(p, ".Start") || strings.HasSuffix(p, ".End") {
+										roots[p[:strings.LastIndex(p, ".")]] = true
+									}
+								}
+							}
+						}
+					}
+					r.Check(len(roots) == 1, short(f)+"|same-interval", listStore.Pos(), "both bounds are those of one and the same interval (%s)", joinSorted(roots))
+				}
+				c17NoPosIgnored(r, f, listStore)
+				continue
+			}
+		}
 		// the filter may have been extracted into a private helper: cg.List = helper(cg.List, lo, hi)
 		if call, ok := listStore.Val.(*ssa.Call); ok {
 			if h := an.StaticCallee(call); h != nil && an.InModule(h) && h.Blocks != nil {
@@ -390,72 +426,7 @@ func c17FilterOnly(r *an.Run) {
 			}
 		}
 		r.Check(len(roots) == 1, short(f)+"|same-interval", listStore.Pos(), "both bounds are those of one and the same interval (%s)", joinSorted(roots))
-		// NoPos intervals are skipped
-		noPos := false
-		for _, c := range an.EqCases(f, func(v ssa.Value) bool { return strings.HasSuffix(an.Path(v), ".Start") && !isAddr(v) }) {
-			if k, ok := an.ConstInt(c.Key); ok && k == 0 {
-				outer := an.LoopOf(f, c.If.Block())
-				if outer != nil && c.Target == outer.Header {
-					noPos = true
-				} else if outer != nil {
-					reach := an.Reach([]*ssa.BasicBlock{c.Target}, func(b *ssa.BasicBlock, i int) bool { return b.Succs[i] == outer.Header })
-					if !reach[listStore.Block()] {
-						noPos = true
-					}
-				}
-			}
-		}
-		if !noPos {
-			// … or the list of intervals was cleared of them beforehand: slices.DeleteFunc(list, func(iv) bool {
-			// return iv.Start == token.NoPos }) somewhere in the clean-up functions, whose result is what is
-			// iterated here
-			for _, g := range cleanupFuncs(r) {
-				for _, h := range helperGroup(g, 2) {
-					for _, c := range an.CallsTo(h, "slices.DeleteFunc") {
-						var pred *ssa.Function
-						switch v := c.Common().Args[1].(type) {
-						case *ssa.Function:
-							pred = v
-						case *ssa.MakeClosure:
-							pred, _ = v.Fn.(*ssa.Function)
-						}
-						if pred == nil || len(pred.Params) != 1 {
-							continue
-						}
-						all := len(an.Returns(pred)) > 0
-						for _, ret := range an.Returns(pred) {
-							cmp, ok := ret.Results[0].(*ssa.BinOp)
-							var k int64
-							isc := false
-							if ok {
-								k, isc = an.ConstInt(cmp.Y)
-							}
-							if !(ok && cmp.Op == token.EQL && isc && k == 0 && an.Path(cmp.X) == an.ParamName(pred.Params[0])+".Start") {
-								all = false
-							}
-						}
-						call, isCall := c.(*ssa.Call)
-						if !all || !isCall {
-							continue
-						}
-						// the filtered list reaches the function that removes comments
-						for _, site := range an.Calls(h) {
-							if sc := an.StaticCallee(site); sc != nil && (sc == f || inGroup(sc, f) || inGroup(f, sc)) {
-								for _, a := range site.Common().Args {
-									if a == ssa.Value(call) {
-										noPos = true
-									}
-								}
-							}
-						}
-						if h == f {
-							noPos = true
-						}
-					}
-				}
-			}
-		}
-		r.Check(noPos, short(f)+"|nopos-interval-ignored", f.Pos(), "an interval without a valid start removes no comment")
+		c17NoPosIgnored(r, f, listStore)
 	}
 	r.Rule("R2-comment-lists-only-shrink")
 	r.Count("comment list filters", nList)
@@ -936,6 +907,28 @@ func filteredOwnComments(r *an.Run, val ssa.Value, file ssa.Value) string {
 		if ret.Results[0] == ssa.Value(param) {
 			continue // the list as it was
 		}
+		// appendIf(comments[:0:0], comments, keep): a filter helper given the list itself and, to append to,
+		// nothing or a zero-capacity view
+		if fc, isCall := ret.Results[0].(*ssa.Call); isCall {
+			if dstIdx, srcIdx, _, isFilter := asFilterHelper(an.StaticCallee(fc)); isFilter {
+				if fc.Call.Args[srcIdx] != ssa.Value(param) {
+					return "the filter helper is not given the file's own comment list"
+				}
+				dst := fc.Call.Args[dstIdx]
+				if !an.IsNilConst(dst) {
+					for _, o := range sliceOrigins(dst) {
+						switch o.(type) {
+						case *ssa.Const, *ssa.MakeSlice:
+							continue
+						}
+						if !zeroCapacityView(o) {
+							return "the returned list is built in the array of " + an.Describe(o)
+						}
+					}
+				}
+				continue
+			}
+		}
 		for _, o := range sliceOrigins(ret.Results[0]) {
 			switch o.(type) {
 			case *ssa.Const, *ssa.MakeSlice:
@@ -999,4 +992,188 @@ func appendedElements(app *ssa.Call) []ssa.Value {
 		}
 	}
 	return out
+}
+
+// c17NoPosIgnored: an interval without a valid start removes no comment.
+func c17NoPosIgnored(r *an.Run, f *ssa.Function, listStore *ssa.Store) {
+	r.Rule("R3-containment-test")
+	// NoPos intervals are skipped
+	noPos := false
+	for _, c := range an.EqCases(f, func(v ssa.Value) bool { return strings.HasSuffix(an.Path(v), ".Start") && !isAddr(v) }) {
+		if k, ok := an.ConstInt(c.Key); ok && k == 0 {
+			outer := an.LoopOf(f, c.If.Block())
+			if outer != nil && c.Target == outer.Header {
+				noPos = true
+			} else if outer != nil {
+				reach := an.Reach([]*ssa.BasicBlock{c.Target}, func(b *ssa.BasicBlock, i int) bool { return b.Succs[i] == outer.Header })
+				if !reach[listStore.Block()] {
+					noPos = true
+				}
+			}
+		}
+	}
+	if !noPos {
+		// … or the list of intervals was cleared of them beforehand: slices.DeleteFunc(list, func(iv) bool {
+		// return iv.Start == token.NoPos }) somewhere in the clean-up functions, whose result is what is
+		// iterated here
+		for _, g := range cleanupFuncs(r) {
+			for _, h := range helperGroup(g, 2) {
+				for _, c := range an.CallsTo(h, "slices.DeleteFunc") {
+					var pred *ssa.Function
+					switch v := c.Common().Args[1].(type) {
+					case *ssa.Function:
+						pred = v
+					case *ssa.MakeClosure:
+						pred, _ = v.Fn.(*ssa.Function)
+					}
+					if pred == nil || len(pred.Params) != 1 {
+						continue
+					}
+					all := len(an.Returns(pred)) > 0
+					for _, ret := range an.Returns(pred) {
+						cmp, ok := ret.Results[0].(*ssa.BinOp)
+						var k int64
+						isc := false
+						if ok {
+							k, isc = an.ConstInt(cmp.Y)
+						}
+						if !(ok && cmp.Op == token.EQL && isc && k == 0 && an.Path(cmp.X) == an.ParamName(pred.Params[0])+".Start") {
+							all = false
+						}
+					}
+					call, isCall := c.(*ssa.Call)
+					if !all || !isCall {
+						continue
+					}
+					// the filtered list reaches the function that removes comments
+					for _, site := range an.Calls(h) {
+						if sc := an.StaticCallee(site); sc != nil && (sc == f || inGroup(sc, f) || inGroup(f, sc)) {
+							for _, a := range site.Common().Args {
+								if a == ssa.Value(call) {
+									noPos = true
+								}
+							}
+						}
+					}
+					if h == f {
+						noPos = true
+					}
+				}
+			}
+		}
+	}
+	r.Check(noPos, short(f)+"|nopos-interval-ignored", f.Pos(), "an interval without a valid start removes no comment")
+}
+
+// predicateIsContainment: pred(c) — the function handed to a filter helper —
+// answers true (keep) exactly when the comment does NOT lie entirely inside
+// [start, end]: decision table over c.Pos() >= start and c.End() <= end.
+func predicateIsContainment(r *an.Run, key string, pred *ssa.Function, isLo, isHi func(ssa.Value) bool, pos token.Pos) {
+	param := ssa.Value(pred.Params[0])
+	posOf := func(v ssa.Value, method string) bool {
+		c, ok := v.(*ssa.Call)
+		return ok && an.IsCallTo(c, "(*go/ast.Comment)."+method) && c.Call.Args[0] == param
+	}
+	classify := func(c ssa.Value) string {
+		cmp, ok := c.(*ssa.BinOp)
+		if !ok {
+			return ""
+		}
+		switch {
+		case posOf(cmp.X, "Pos") && isLo(cmp.Y):
+			switch cmp.Op {
+			case token.GEQ:
+				return "pos>=start"
+			case token.LSS:
+				return "not:pos>=start"
+			}
+		case posOf(cmp.X, "End") && isHi(cmp.Y):
+			switch cmp.Op {
+			case token.LEQ:
+				return "end<=end"
+			case token.GTR:
+				return "not:end<=end"
+			}
+		case isLo(cmp.X) && posOf(cmp.Y, "Pos"):
+			switch cmp.Op {
+			case token.LEQ:
+				return "pos>=start"
+			case token.GTR:
+				return "not:pos>=start"
+			}
+		case isHi(cmp.X) && posOf(cmp.Y, "End"):
+			switch cmp.Op {
+			case token.GEQ:
+				return "end<=end"
+			case token.LSS:
+				return "not:end<=end"
+			}
+		}
+		return ""
+	}
+	paths, err := an.EnumeratePathsFrom(pred.Blocks[0], classify, nil, 256, false)
+	if err != nil {
+		r.Undecided(key+"|containment", pos, "cannot extract the containment test of the comment filter: %v", err)
+		return
+	}
+	type row struct {
+		atoms map[string]bool
+		keep  bool
+	}
+	var rows []row
+	good := len(paths) >= 1
+	for _, p := range paths {
+		ret, ok := p.End.Instrs[len(p.End.Instrs)-1].(*ssa.Return)
+		if !ok {
+			good = false
+			continue
+		}
+		atoms := map[string]bool{}
+		for a, v := range p.Atoms {
+			if strings.HasPrefix(a, "not:") {
+				atoms[strings.TrimPrefix(a, "not:")] = !v
+			} else {
+				atoms[a] = v
+			}
+		}
+		v := p.ResolveOnPath(ret.Results[0])
+		neg := false
+		for {
+			if u, isNot := v.(*ssa.UnOp); isNot && u.Op == token.NOT {
+				neg = !neg
+				v = p.ResolveOnPath(u.X)
+				continue
+			}
+			break
+		}
+		if k, isc := an.ConstBool(v); isc {
+			rows = append(rows, row{atoms, k != neg})
+			continue
+		}
+		// the last comparison is returned itself: both outcomes
+		a := classify(v)
+		if a == "" {
+			good = false
+			continue
+		}
+		name, inv := strings.TrimPrefix(a, "not:"), strings.HasPrefix(a, "not:")
+		for _, val := range []bool{true, false} {
+			at := map[string]bool{}
+			for k2, v2 := range atoms {
+				at[k2] = v2
+			}
+			at[name] = val != inv
+			rows = append(rows, row{at, val != neg})
+		}
+	}
+	for _, rw := range rows {
+		lo, loK := rw.atoms["pos>=start"]
+		hi, hiK := rw.atoms["end<=end"]
+		inside := loK && lo && hiK && hi
+		outside := (loK && !lo) || (hiK && !hi)
+		if !(inside || outside) || inside && rw.keep || outside && !rw.keep {
+			good = false
+		}
+	}
+	r.Check(good && len(rows) >= 2, key+"|containment", pos, "a comment is dropped exactly when it lies entirely inside the changed interval: c.Pos() >= start && c.End() <= end (%d rows of the predicate's decision table)", len(rows))
 }
